@@ -74,7 +74,9 @@ func (a *Application) registerTranslatorRoutes() {
 			path := pathProvider.GetAPIPath()
 			handler := a.translationHandler(trans)
 
-			a.routeRegistry.RegisterWithMethod(
+			// the messages endpoint forwards client requests to the backends: it must pass
+			// the same admission limits as the proxy routes
+			a.routeRegistry.RegisterProtectedRoute(
 				path,
 				handler,
 				name+" Messages API",
